@@ -1401,8 +1401,42 @@ def _forall_nd(shape, body):
     return z3.ForAll(vs, z3.Implies(rng, to_z3(body(*vs))))
 
 
+def broadcast_to(array, shape, subok=False):
+    """np.broadcast_to: a READ-ONLY view of `array` with the given shape (extent-1 / missing leading dimensions repeated).
+    Modelled as a read-only array with the same content; the source is marked, so that a later write to it (which the real
+    view would show) leaves the subset instead of being mis-modelled."""
+    a = asarray(array)
+    shape = tuple(shape) if isinstance(shape, (tuple, list)) else (shape,)
+    shape = tuple(_z(s_) for s_ in shape)
+    if len(shape) < a.ndim:
+        raise ValueError("input operand has more dimensions than allowed by the axis remapping")
+    off = len(shape) - a.ndim
+    keep = []
+    for k, s_in in enumerate(a._shape):
+        s_out = shape[off + k]
+        if s_in is s_out or (conc(s_in) is not None and conc(s_in) == conc(s_out)):
+            keep.append(True)
+        elif conc(s_in) == 1:
+            keep.append(False)
+        elif ctx().decide(zint(s_in) == zint(s_out), "broadcast_to: extents equal"):
+            keep.append(True)
+        elif ctx().decide(zint(s_in) == 1, "broadcast_to: source extent is 1"):
+            keep.append(False)
+        else:
+            raise ValueError("operands could not be broadcast together with remapped shapes")
+    fa = a.snapshot()
+    r = ndarray.from_fn(lambda *idx: fa(*[i if kp else 0 for i, kp in zip(idx[off:], keep)]), shape, a.kind, a.elem)
+    r.buf.tags["readonly"] = True
+    a.buf.tags["aliased_by_readonly_view"] = True
+    return r
+
+
 def _setitem(a, key, value):
     """in-place write.  Only onto whole-buffer arrays (a write through a view is out of subset)."""
+    if a.buf.tags.get("readonly"):
+        raise ValueError("assignment destination is read-only")
+    if a.buf.tags.get("aliased_by_readonly_view"):
+        raise OutOfSubset("write to an array a broadcast_to view aliases")
     if not a.is_whole():
         raise OutOfSubset("write through a view")
     buf = a.buf
